@@ -299,6 +299,35 @@ def npConvolveSame (a v : List Rat) : Py (List Rat) :=
   let off := (min a.length v.length - 1) / 2
   .ok ((full.drop off).take n)
 
+/-- `np.unique(v, return_counts=True)[1]` : number of occurrences of each distinct value, in ascending order of the values -/
+def npUniqueCounts (v : List Int) : List Int := (npUnique v).map (fun x => ((v.filter (fun y => y == x)).length : Int))
+
+/-- `np.min(v)` of an integer array; `ValueError` for the empty array -/
+def npMinInt (v : List Int) : Py Int :=
+  match v with
+  | [] => .error .value
+  | x :: xs => .ok (xs.foldl min x)
+
+/-- `astype(np.int32)` of an integer: wrap into the signed 32-bit range -/
+def npWrap32 (v : Int) : Int := (v + 2147483648) % 4294967296 - 2147483648
+
+/-- `conv[idx] = vals` : sequential element assignment (later pairs win), python index rules; `ValueError` unless `vals` has one
+entry per index (or exactly one, which is broadcast) -/
+def npAssignAt {α : Type} (conv : List α) (idx : List Int) (vals : List α) : Py (List α) :=
+  match vals with
+  | [x] => idx.foldlM (fun acc i => pySet acc i x) conv
+  | _ =>
+    if idx.length ≠ vals.length then .error .value
+    else (idx.zip vals).foldlM (fun acc p => pySet acc p.1 p.2) conv
+
+/-- `_flatten_data` for a list of 1-d arrays: the concatenation and the cumulative lengths (`kwargs['limits']`) -/
+def npFlattenLL (a : List (List Int)) : List Int × List Int :=
+  (a.flatten, npCumsumInt (a.map (fun r => (r.length : Int))))
+
+/-- `_unflatten_data` for that form: `np.split(array, limits)[:-1]` -/
+def npUnflattenLL (v : List Int) (limits : List Int) : List (List Int) :=
+  pySlice (npSplit v limits) none (some (-1))
+
 /-- `np.floor(x)` as an integer -/
 def npFloor (x : Rat) : Int := x.floor
 
